@@ -2,9 +2,13 @@ package main
 
 import (
 	"os"
+	"runtime/debug"
 
 	_ "github.com/flamego/flamego/verifharness/checks"
 	"github.com/flamego/flamego/verifharness/core"
 )
 
-func main() { os.Exit(core.Main(os.Args[1:])) }
+func main() {
+	debug.SetGCPercent(800) // enumeration loops allocate small short-lived objects on 16 workers
+	os.Exit(core.Main(os.Args[1:]))
+}
